@@ -101,12 +101,11 @@ def std_summaries(program: Program) -> Dict[str, Callable]:
 
     def s_get_info(I, func, self_val, args, kwargs, node, fr):
         k = cfg_key(args[0] if args else kwargs["key"])
-        I.run.event("cfg_get", key=k, node=node, func=(fr.func.qualname if fr and fr.func else ""),
-                    module=(fr.module if fr else ""))
         store = the_config(I).fields
-        if "$" + k in store:
-            return store["$" + k]
-        return Unknown(f"cfg[{k}]", {"cfg_key": k})
+        val = store["$" + k] if "$" + k in store else Unknown(f"cfg[{k}]", {"cfg_key": k})
+        I.run.event("cfg_get", key=k, node=node, func=(fr.func.qualname if fr and fr.func else ""),
+                    module=(fr.module if fr else ""), value=val, was_set=("$" + k in store))
+        return val
 
     def s_set_info(I, func, self_val, args, kwargs, node, fr):
         k = cfg_key(args[0] if args else kwargs["key"])
